@@ -601,6 +601,10 @@ class C12(Prop):
         for case, lines, impl_out in pending:
             i += 1
             mo = out[i:i + len(lines)]
+            canon = getattr(self, "canon_line", None)
+            if canon is not None:               # property-specific canonicalisation applied to BOTH sides
+                mo = [canon(case, x) for x in mo]
+                impl_out = [canon(case, x) for x in impl_out]
             i += len(lines)
             res.lines += len(lines)
             for j, (a, b) in enumerate(zip(impl_out, mo)):
